@@ -4,7 +4,7 @@
    deriv2/3, sderivs are the executable model (Model/FiniteDiff.v) that the correspondence runs against the code. *)
 From Coq Require Import ZArith QArith Qcanon List Permutation Lia.
 From DV Require Import Base.Field Base.LinAlg Base.QcInst Model.BSplineBase Gen.BSpline Model.BSpline
-  Gen.FlowDeriv Model.FiniteDiff Proofs.C12FD Proofs.C12ND Proofs.C12Flow Proofs.C12Keys.
+  Gen.FlowDeriv Model.FiniteDiff Proofs.C12FD Proofs.C12ND Proofs.C12ND3 Proofs.C12Flow Proofs.C12Keys.
 Import ListNotations.
 Local Open Scope fld_scope.
 
@@ -59,6 +59,23 @@ Proof.
   [exact (dstep2_affine_x K Kf Kc m a bx by_ hx hy nx ny x y)|exact (dstep2_affine_y K Kf Kc m a bx by_ hx hy nx ny x y)].
 Qed.
 Print Assumptions C12_affine_field_2d.
+
+(* three dimensions: f(z, y, x) = a + bx (x hx) + by (y hy) + bz (z hz); the difference along one axis after smoothing
+   the two other axes (prewitt / sobel) returns the analytic partial derivative; all six modes, shapes, spacings *)
+Theorem C12_affine_field_3d :
+  forall (K : fld), is_field K -> char0 K ->
+  forall (m : fdmode) (a bx by_ bz hx hy hz : K) (nx ny nz x y z : nat),
+  let c := field3 a bx by_ bz hx hy hz nx ny nz in
+  (hx <> 0 -> exact1 m nx x -> smooth_ok m ny y -> smooth_ok m nz z -> at3 (dstep3 m 0 hx c) z y x = bx) /\
+  (hy <> 0 -> exact1 m ny y -> smooth_ok m nx x -> smooth_ok m nz z -> at3 (dstep3 m 1 hy c) z y x = by_) /\
+  (hz <> 0 -> exact1 m nz z -> smooth_ok m nx x -> smooth_ok m ny y -> at3 (dstep3 m 2 hz c) z y x = bz).
+Proof.
+  intros K Kf Kc m a bx by_ bz hx hy hz nx ny nz x y z c. split; [|split];
+  [exact (dstep3_affine_x K Kf Kc m a bx by_ bz hx hy hz nx ny nz x y z)
+  |exact (dstep3_affine_y K Kf Kc m a bx by_ bz hx hy hz nx ny nz x y z)
+  |exact (dstep3_affine_z K Kf Kc m a bx by_ bz hx hy hz nx ny nz x y z)].
+Qed.
+Print Assumptions C12_affine_field_3d.
 
 (* The property text asks for exactness of prewitt / sobel at *every* grid point:
      forall m a bx by hx hy nx ny x y, hx <> 0 -> exact1 m nx x -> y < ny -> (value at (y, x)) = bx.
